@@ -646,7 +646,7 @@ class sptensor:
         [2, 2, 2] = 3.0
         """
         vals = function_handle(self.vals)
-        idx = np.where(vals > 0)[0]
+        idx = np.where(vals != 0)[0]
         if idx.size == 0:
             return ttb.sptensor(np.array([]), np.array([]), self.shape, copy=False)
         return ttb.sptensor(self.subs[idx, :], vals[idx], self.shape, copy=False)
